@@ -122,6 +122,21 @@ def run(ctx):
         d.update(grad_mode=rng.choice(["striped", "striped", "sparse_first"]), sparse_steps=rng.choice([3, 100]), stripe_largest=rng.random() < 0.7)
         d.pop("grad_scales", None)
     tasks += st
+    # how hyperparameters are held in param_groups: a tensor learning rate changed in place, ints that become floats; lr moves only
+    def styled(r):
+        g = family.draw_group(r, r.choice(["m2x2", "v2x3", "rect", "s0v"]), kind="shampoo")
+        g["hyper_style"] = r.choice(["tensor_lr", "tensor_lr", "int"])
+        if g["hyper_style"] == "int":
+            g["lr"] = [0.0, 1.0, g["lr"][2]]
+        return [g]
+    tasks += sp.gen_tasks(ctx, rng, 3 if quick else 12, 5 if quick else 12, styled, 7, (), ("lr",), per_beh_redraw=False)
+    # per-order exponent overrides shorter than the tensor order, on unmerged tensors of order 3 and 4
+
+    def overridden(r):
+        g = family.draw_group(r, r.choice(["t3", "t4", "t4", "rect"]), kind="shampoo", method="eigen")
+        g["override"], g["mult"] = r.choice([[1], [1, 2], [2, 3], [1, 2, 3], [3]]), 1.0
+        return [g]
+    tasks += sp.gen_tasks(ctx, rng, 3 if quick else 12, 4 if quick else 10, overridden, 6, (), (), per_beh_redraw=False)
     # bounded-exhaustive: every behaviour of depth 4 of a 2-param group around the start / refresh boundary
     tasks += sp.exhaustive_tasks(ctx, rng, [family.draw_group(rng, "m2x2", kind="shampoo", freq=2, start=3)], 4 if quick else 5, (), ())
     sp.run_rt(ctx, tasks, owns, "update_rule")
